@@ -83,10 +83,14 @@ class REModel:
     @cached_property
     def uncacheable(self) -> list[str]:
         for s in self.cls.node.body:
-            if isinstance(s, ast.Assign) and A.chain(s.targets[0]) == "_UNCACHEABLE_COMMANDS":
-                v = A.str_elts(s.value)
+            if isinstance(s, (ast.Assign, ast.AnnAssign)) and A.chain(s.targets[0] if isinstance(s, ast.Assign) else s.target) == "_UNCACHEABLE_COMMANDS":
+                val = s.value
+                # frozenset({...}) / set([...]) / tuple((...)) / list(...) around a literal collection of strings
+                while isinstance(val, ast.Call) and A.call_name(val) in ("frozenset", "set", "tuple", "list", "sorted") and len(val.args) == 1 and not val.keywords:
+                    val = val.args[0]
+                v = A.str_elts(val)
                 if v is None:
-                    raise AnalysisError("_UNCACHEABLE_COMMANDS is not a literal list of strings")
+                    raise AnalysisError("_UNCACHEABLE_COMMANDS is not a literal collection of strings")
                 return v
         raise AnalysisError("anchor vanished: RunEngine._UNCACHEABLE_COMMANDS")
 
